@@ -2692,6 +2692,11 @@ class KmipEngine(object):
                 wrapped_object.value = result
 
                 core_secret = self._build_core_object(wrapped_object)
+                if not hasattr(core_secret, 'key_block'):
+                    raise exceptions.IllegalOperation(
+                        "Objects without a key block (certificates, opaque "
+                        "objects) cannot be wrapped."
+                    )
                 key_wrapping_data = KeyWrappingData(
                     wrapping_method=wrapping_method,
                     encryption_key_information=key_info,
